@@ -39,6 +39,11 @@ type Monitor interface {
 	Final(rc *RunCtx) *Violation
 }
 
+// BeforeStepper is implemented by monitors that need the state before a step.
+type BeforeStepper interface {
+	BeforeStep(rc *RunCtx, i int, st *Step)
+}
+
 // Profile turns a property into a workload, a fault space and oracles.
 type Profile struct {
 	Name     string
@@ -249,6 +254,11 @@ func runInBubble(p *Profile, o RunOpts, res *RunResult) {
 			}
 		}
 		rc.Trace = append(rc.Trace, *st)
+		for _, m := range rc.Mons {
+			if b, ok := m.(BeforeStepper); ok {
+				b.BeforeStep(rc, i, st)
+			}
+		}
 		sr := w.Exec(st)
 		rc.Outs = append(rc.Outs, sr.Out)
 		rc.log.add(fmt.Sprintf("%d %s -> %s", i, st.String(), describe(&sr)))
